@@ -48,6 +48,19 @@ func (h *hasher) str(s string) {
 	h.buf = append(h.buf, s...)
 }
 
+func scalarLess(a, b reflect.Value) bool {
+	switch a.Kind() {
+	case reflect.String:
+		return a.String() < b.String()
+	case reflect.Bool:
+		return !a.Bool() && b.Bool()
+	case reflect.Int, reflect.Int8, reflect.Int16, reflect.Int32, reflect.Int64:
+		return a.Int() < b.Int()
+	default:
+		return a.Uint() < b.Uint()
+	}
+}
+
 // opaqueType: types whose interior is not part of the hashed structure
 // (synchronised or immutable library objects).
 func opaqueType(t reflect.Type) bool {
@@ -169,26 +182,41 @@ func (h *hasher) value(v reflect.Value, depth int) {
 			h.tag('0')
 			return
 		}
-		// entries are hashed independently (each with a private copy of the
-		// pointer numbering made so far) and combined in sorted order, so the
-		// result does not depend on Go's map iteration order.
 		h.tag('M')
 		h.u64(uint64(v.Len()))
-		var ents []string
-		it := v.MapRange()
-		for it.Next() {
-			sub := &hasher{seen: map[visitKey]int{}}
-			for k, n := range h.seen {
-				sub.seen[k] = n
+		switch v.Type().Key().Kind() {
+		case reflect.String, reflect.Bool, reflect.Int, reflect.Int8, reflect.Int16, reflect.Int32, reflect.Int64,
+			reflect.Uint, reflect.Uint8, reflect.Uint16, reflect.Uint32, reflect.Uint64, reflect.Uintptr:
+			// scalar keys (every map inside otto): canonical order = sorted keys,
+			// hashed with the one shared pointer numbering
+			keys := v.MapKeys()
+			sort.Slice(keys, func(a, b int) bool { return scalarLess(keys[a], keys[b]) })
+			for _, k := range keys {
+				h.value(k, depth+1)
+				h.tag('=')
+				h.value(v.MapIndex(k), depth+1)
 			}
-			sub.value(it.Key(), depth+1)
-			sub.tag('=')
-			sub.value(it.Value(), depth+1)
-			ents = append(ents, string(sub.buf))
-		}
-		sort.Strings(ents)
-		for _, e := range ents {
-			h.str(e)
+		default:
+			// other key types (pointers, interfaces): entries are hashed
+			// independently, each with a private copy of the pointer numbering
+			// made so far, and combined in sorted order, so that the result does
+			// not depend on Go's map iteration order
+			var ents []string
+			it := v.MapRange()
+			for it.Next() {
+				sub := &hasher{seen: map[visitKey]int{}}
+				for k, n := range h.seen {
+					sub.seen[k] = n
+				}
+				sub.value(it.Key(), depth+1)
+				sub.tag('=')
+				sub.value(it.Value(), depth+1)
+				ents = append(ents, string(sub.buf))
+			}
+			sort.Strings(ents)
+			for _, e := range ents {
+				h.str(e)
+			}
 		}
 	default:
 		h.tag('?')
